@@ -53,6 +53,8 @@ def gen_shape(rng, nmin=2, nmax=9, mix=None, pri="small", seq_rate=0.2, flags=Tr
                 shape = ["tuple", 2]
             elif kinds and r_shape < 0.28:
                 shape = ["none"]
+            elif kinds and r_shape < 0.36:
+                shape = ["handle"]  # an object whose identity matters (and that remembers being copied)
             fns[fn] = dict(priority=p, is_sequential=rng.random() < seq_rate, resource=res, shape=shape)
         nd = {"fn": fn, "args": [], "kwargs": {}, "active": None}
         ds = sorted(rng.sample(range(i), rng.randint(0, min(i, max_deps))))
@@ -754,7 +756,9 @@ def check_generic(log):
             viol.append({"prop": prop, "mech": "generic:" + mech, "witness": dict(w, token=tok)})
 
         for e in evs:
-            if e["kind"] == "SPIN":
+            if e["kind"] == "COPY_DELIVERED":
+                add("C02", "consumer_was_handed_a_copy_of_a_result", node=e.get("node"), value=repr(e.get("value"))[:120])
+            elif e["kind"] == "SPIN":
                 add("C09", "scheduler_spins", steps=e["steps"], limit=e["limit"])
             elif e["kind"] == "DEADLOCK":
                 add("C09", "deadlock_wait_on_nothing_that_can_finish", wkind=e["wkind"], futs=e["futs"])
